@@ -1,6 +1,6 @@
 """C09 - split_and returns an equivalent list of indivisible conjuncts."""
 from harness.common import Report, import_hpl, rng, tier
-from harness.rewrite_driver import Recorder, corrupt_first, family_texts, parse_inputs
+from harness.rewrite_driver import Recorder, corrupt_first, derived_pass, family_texts, parse_inputs
 
 FAMS = ['slots', 'alias', 'quants', 'bool1w', 'bool2']
 
@@ -22,10 +22,13 @@ def run(replay=None):
     rec = Recorder(rep, rnd, 64 if thorough else 32)
     texts = family_texts(list(FAMS + (['bool22'] if thorough else [])) + [('rand', 8000, 5) if thorough else ('rand', 1500, 4)], rep, rnd, cap=None if thorough else 3000)
     texts += [('vacuous', 'True'), ('vacuous', 'False'), ('vacuous', '( False )'), ('vacuous', 'not True'), ('vacuous', 'p and False')]
+    used = []
     for fam, text, entry, obj in parse_inputs(texts, ('expression', 'condition'), boolean_only=True):
         if entry == 'condition' and fam != 'vacuous' and rnd.random() > 0.25:
             continue
         rec.split_and(text, obj)
+        used.append((text, obj))
+    rep.count('derived_after_use', derived_pass(used, rec.split_and, rnd, 1500 if thorough else 400))
     for i, clause in rec.validate(canary):
         inf = rec.info[i]
         rep.violation('%s|%s' % (clause, inf['text']), 'split_and(%r) -> [%s] violates %s' % (inf['text'], inf['result'] or inf['out'], clause), inf)
